@@ -182,6 +182,9 @@ def parse_rvalue(s):
         p, j = parse_place(s, 1)
         assert j == len(s), s
         return ("ref", p, "shared")
+    mfn = re.match(r"([\w<][^\n]*?) as ((?:for<[^>]*> )?(?:unsafe )?fn\(.*) \((PointerCoercion\(ReifyFnPointer.*\))\)$", s, re.S)
+    if mfn and not s.startswith(("copy ", "move ", "const ")):
+        return ("cast", ("fnitem", mfn.group(1).strip()), mfn.group(2).strip(), mfn.group(3))
     if s.startswith(("copy ", "move ", "const ")):
         # possible cast:  <operand> as <ty> (<Kind>)
         m = re.match(r"(.*) as (.*) \((\w+(?:\(.*\))?)\)$", s, re.S)
